@@ -9,7 +9,7 @@ BUDGET = {
     "quick": dict(shards=16, cases=960, deadline=70),
     "thorough": dict(shards=16, cases=24000, deadline=1200),
 }
-DECIDING = ["bms.read", "fileio.read_file"]
+DECIDING = ["bms.read", "fileio.read_file", "c04.kf_witness"]
 RULE = ("Generated BMS texts for each of the five shipped layouts (all lanes): subdivisions 1..192 incl. primes, integer "
         "(channel 03) and extended (channel 08) tempo changes anywhere in a measure, LNOBJ long notes within and across "
         "measures, defined and undefined #WAV ids, header order shuffled, lines in file/sorted/reversed/random order, "
@@ -21,9 +21,34 @@ ASSUMPTIONS = ["rv/ref/bms.py + rv/ref/timing.py are the trusted reading of the 
 CLASSES = ["plain", "plain", "line_order", "line_order", "repeated_lines", "single_tempo", "no_lnobj", "tempo_fine_subdivision"]
 
 
+def kf_witnesses():
+    from rv import core
+
+    for f in core.load_known_findings().get("findings", []):
+        if f["id"] == "KF-C04-tempo-change-finer-than-snapper":
+            return f.get("pinned_outputs", [])
+    return []
+
+
+def read_output(lines, layout):
+    """What BMSMap.read gives for the lines: sorted hits / holds / tempo points, or the exception name."""
+    from reamber.bms.BMSChannel import BMSChannel
+    from reamber.bms.BMSMap import BMSMap
+    from rv.snapshot import rows
+
+    try:
+        m = BMSMap.read(list(lines), getattr(BMSChannel, layout))
+    except Exception as e:
+        return "raises " + type(e).__name__
+    return dict(hits=sorted([round(float(o), 6), int(c)] for o, c in rows(m.hits, ["offset", "column"])),
+                holds=sorted([round(float(o), 6), int(c), round(float(ln), 6)] for o, c, ln in rows(m.holds, ["offset", "column", "length"])),
+                bpms=sorted([round(float(o), 6), round(float(b), 6)] for o, b in rows(m.bpms, ["offset", "bpm"])))
+
+
 def pinned(tier):
     repo = os.environ.get("VERIF_REPO", "/repo")
-    return [dict(cls="corpus", path=p) for p in sorted(glob.glob(os.path.join(repo, "rsc/maps/bms/*.bm*")))]
+    return [dict(cls="corpus", path=p) for p in sorted(glob.glob(os.path.join(repo, "rsc/maps/bms/*.bm*")))] + \
+        [dict(cls="kf_witness", lines=w["lines"], layout=w["layout"], expected=w["output"], wid=i) for i, w in enumerate(kf_witnesses())]
 
 
 def gen(rng, tier, k):
@@ -53,6 +78,15 @@ def run(ctx, case):
     from reamber.bms.BMSChannel import BMSChannel
     from reamber.bms.BMSMap import BMSMap
 
+    if case["cls"] == "kf_witness":
+        with ctx.quiet():
+            got = read_output(case["lines"], case["layout"])
+        if got != case["expected"]:
+            ctx.violate("C04", "c04.kf_witness", "behaviour_changed",
+                        f"pinned input {case['wid']} of KF-C04-tempo-change-finer-than-snapper no longer gives the recorded output: recorded {str(case['expected'])[:300]}, now {str(got)[:300]}",
+                        dict(lines=case["lines"], recorded=case["expected"], now=got), dict(witness=True))
+        else:
+            ctx.held("c04.kf_witness", "recorded_output")
     if case["cls"] == "corpus":
         with codecs.open(case["path"], mode="r", encoding="shift_jis") as f:
             lines = [ln.strip() for ln in f.readlines()]
